@@ -61,5 +61,6 @@ func verifH_C03_cycle() {
 	for _, e := range q2[1:] {
 		verifAssert(newID != e.id, "C03: identifier of a transfer in flight given to another message")
 	}
+	verifDrainClient(c2, o.store, nil, append(q2[1:], verifEntry{id: newID, packet: nil}), "C03(completed)")
 	verifReach("completed")
 }
